@@ -171,8 +171,9 @@ def rad2deg [ScT α] : α := 180.0 / pi
 
 /-- `From<&LCh> for Color` (lib.rs:951). -/
 def fromLch [ScT α] (l c h alpha : α) : Color α :=
-  let a := c * cos (h * deg2rad)
-  let b := c * sin (h * deg2rad)
+  let hr := Sc.fmod h 360.0
+  let a := c * cos (hr * deg2rad)
+  let b := c * sin (hr * deg2rad)
   fromLab l a b alpha
 
 /-- `From<&CMYK> for Color` (lib.rs:969). -/
